@@ -66,6 +66,10 @@ func newInterpreter(prog *ssa.Program, ts *TermStore, cfg *Config) *interpreter 
 			if f := p.Func("init"); f != nil {
 				i.repoInits = append(i.repoInits, f)
 			}
+		} else if stdInitPkgs[p.Pkg.Path()] {
+			if f := p.Func("init"); f != nil {
+				i.stdInits = append(i.stdInits, f)
+			}
 		}
 	}
 	for _, p := range prog.AllPackages() {
@@ -81,14 +85,55 @@ func isGeneratedPkg(p *ssa.Package) bool {
 	return strings.HasSuffix(path, "/proto")
 }
 
+// stdInitPkgs: standard packages whose package-level tables are needed by code executed from SSA and whose
+// initialisers are plain data (no runtime, no system calls). Their initialisers run once per worker.
+var stdInitPkgs = map[string]bool{
+	"unicode/utf8": true, "unicode/utf16": true, "unicode": true, "strings": true, "bytes": true,
+	"sort": true, "slices": true, "cmp": true, "math/bits": true, "container/heap": true,
+	"encoding/binary": true, "encoding/hex": true, "path": true,
+}
+
 func (i *interpreter) resetPath() {
 	i.globals = map[*ssa.Global]*value{}
+	for g, c := range i.stdCells {
+		i.globals[g] = c
+	}
 	i.redirects = map[string]value{}
+}
+
+// runStdInits executes the initialisers of stdInitPkgs once and keeps the resulting global cells.
+func (i *interpreter) runStdInits() {
+	if i.stdCells != nil {
+		return
+	}
+	i.stdCells = map[*ssa.Global]*value{}
+	i.stdInitFailed = map[string]string{}
+	for _, f := range i.stdInits {
+		func() {
+			defer func() {
+				if r := recover(); r != nil {
+					i.stdInitFailed[f.Pkg.Pkg.Path()] = fmt.Sprint(r)
+				}
+			}()
+			call(i, nil, 0, f, nil)
+		}()
+	}
+	for g, c := range i.globals {
+		if g.Pkg != nil && stdInitPkgs[g.Pkg.Pkg.Path()] {
+			if _, failed := i.stdInitFailed[g.Pkg.Pkg.Path()]; !failed {
+				i.stdCells[g] = c
+			}
+		}
+	}
 }
 
 // runInits executes the package initialisers of the repository packages.
 // Every other package's init$guard is pre-set so its init returns at once.
 func (i *interpreter) runInits() {
+	if i.stdCells == nil {
+		i.runStdInits()
+		i.resetPath()
+	}
 	for _, f := range i.repoInits {
 		i.callInit(f)
 	}
